@@ -169,6 +169,25 @@ def do_replay(path: str) -> int:
         rp = json.load(f)
     ov = overlay.make_overlay()
     overlay.activate(ov)
+    if 'bounded_standin' in rp:
+        # a failure of a labelled bounded stand-in: re-run the stand-ins of that property (quick tier) on the current tree
+        from contracts import index as cindex
+
+        want = rp.get('failure', {})
+        print('bounded stand-in %s reported: %s' % (rp['bounded_standin'], json.dumps(want, default=str)[:1500]))
+        again = []
+        for mn in cindex.PROPS[rp['property']]['modules']:
+            b = getattr(importlib.import_module(mn), 'bounded', None)
+            if b is not None:
+                for st in b('quick', int(os.environ.get('VERIF_SEED', '0') or 0), ov):
+                    for fl in st.get('failures', []):
+                        if st['name'] == rp['bounded_standin'] and (want.get('obligation') is None or fl.get('obligation') == want.get('obligation')):
+                            again.append(fl)
+        print('replay status: stand-in re-run, %d matching failure(s) on this tree' % len(again))
+        if again:
+            print('VIOLATION property=%s replay=%s' % (rp['property'], path))
+            return 1
+        return 0
     importlib.import_module(rp['harness_module'])
     hd = [h for h in H.HARNESSES if h.name == rp['harness_name'] and h.fn.__module__ == rp['harness_module']]
     if not hd:
